@@ -162,3 +162,8 @@ _add_family(globals(), _os, 'onceset', _os.oracle, share=0.05)
 # a process returning the same update object from every call through several ports: each update applied once
 from harness import reuseupd as _ru                 # noqa: E402
 _add_family(globals(), _ru, 'reuseupd', _ru.oracle, share=0.04)
+
+
+# a process deleted or replaced while its update is in flight: that update never arrives, the newcomer starts afresh
+from harness import deadwriter as _dw                   # noqa: E402
+_add_family(globals(), _dw, 'deadwriter', _dw.oracle, share=0.04)
